@@ -28,6 +28,7 @@
 #include <gnu_gama/ellipsoids.h>
 
 #include <dirent.h>
+#include <functional>
 #include <memory>
 #include <sstream>
 #include <typeinfo>
@@ -75,7 +76,7 @@ inline void parse_gkf(LocalNetwork& net, const std::string& bytes, const std::ve
 struct Prep { bool adjustable = false; std::string why; };
 
 // The steps gama-local's main() performs between parsing and the first output (src/gama-local.cpp), on the real code.
-inline Prep prepare_like_main(LocalNetwork* IS, const std::string& alg)
+inline Prep prepare_like_main(LocalNetwork* IS, const std::string& alg, const std::function<void(LocalNetwork*)>& before_first_adjustment = nullptr)
 {
   using namespace GNU_gama::local;
   Prep p;
@@ -99,6 +100,7 @@ inline Prep prepare_like_main(LocalNetwork* IS, const std::string& alg)
   stats.execute();
   if (IS->points_count() == 0 || IS->unknowns_count() == 0) { p.why = "no network points"; return p; }
   if (IS->huge_abs_terms()) IS->remove_huge_abs_terms();
+  if (before_first_adjustment) before_first_adjustment(IS);
   std::ostringstream tmp;
   GNU_gama::OutStream tmp_out(&tmp);
   p.adjustable = GeneralParameters(IS, tmp_out);
